@@ -346,6 +346,14 @@ pub fn run_thread_moves(a: &Job, b: &Job) -> Result<u64, String> {
 /// but unrelated small builds in between; both builds must equal the bytes of
 /// X_j built on another fresh thread.
 pub fn run_many_builds(thorough: bool) -> Result<u64, String> {
+    run_many_builds_judged(thorough, None)
+}
+
+/// The same history (about 65 550 builders on one thread, twelve probe inputs
+/// rebuilt exactly 1 .. 65537 builds after their first build); with a judge
+/// the rebuilt bytes are handed to it (C01: round trip, C09: independent
+/// decoder) instead of being compared with the bytes of a fresh thread.
+pub fn run_many_builds_judged(thorough: bool, judge: Option<fn(&[Kv], &[u8]) -> Result<(), String>>) -> Result<u64, String> {
     let mut dists: Vec<u64> = vec![1, 2, 3, 255, 256, 257, 4095, 4096, 4097, 65_535, 65_536, 65_537];
     if thorough {
         dists.extend([131_071, 131_072, 131_073]);
@@ -379,7 +387,10 @@ pub fn run_many_builds(thorough: bool) -> Result<u64, String> {
         for n in 1..=last {
             if let Some(&j) = due.get(&n) {
                 checks += 1;
-                if build(&probes[j])? != refs[j] {
+                let bytes = build(&probes[j])?;
+                if let Some(judge) = judge {
+                    judge(&probes[j], &bytes).map_err(|e| format!("build number {} on one thread (probe input {}, built before as build number {}, distance {}): {}", n, j, j + 1, dists[j], e))?;
+                } else if bytes != refs[j] {
                     return Err(format!("build number {} on one thread (probe input {}, built before as build number {}, distance {}) produced different bytes than on a fresh thread", n, j, j + 1, dists[j]));
                 }
             } else {
